@@ -11,3 +11,11 @@ pub enum Error {
 //@extract src/errors.rs :: type Result
 pub type Result<T> = std::result::Result<T, Error>;
 //@end
+// thiserror's `#[from] anyhow::Error` (TRUSTED): an anyhow error becomes Error::Other
+impl From<anyhow::Error> for Error {
+    fn from(e: anyhow::Error) -> (r: Error) { Error::Other(e) }
+}
+impl vstd::std_specs::convert::FromSpecImpl<anyhow::Error> for Error {
+    open spec fn obeys_from_spec() -> bool { true }
+    open spec fn from_spec(e: anyhow::Error) -> Error { Error::Other(e) }
+}
